@@ -5,7 +5,7 @@ meta.json and print a markdown table for DESIGN.md section 5."""
 import json, os, subprocess, sys, glob
 
 VERIF = os.path.dirname(os.path.dirname(os.path.abspath(__file__)))
-EXTRA = {"C14-7": ["C16"], "C13-5": ["C14"], "C03-1": ["C04"], "C05-2": ["C13"], "C02-1": ["C04"], "C04-1": ["C02", "C18"], "C18-2": ["C04"]}
+EXTRA = {"C12-7": ["C01"], "C14-7": ["C16"], "C13-5": ["C14"], "C03-1": ["C04"], "C05-2": ["C13"], "C02-1": ["C04"], "C04-1": ["C02", "C18"], "C18-2": ["C04"]}
 
 only = None
 seed = None  # --seed=N: robustness sweep at another VERIF_SEED, recorded under "detected_by_seed"
